@@ -22,7 +22,7 @@ THEOREM_FILES = ['Props/C02.v']
 ALLOWED_AXIOMS = []
 LABEL = ('partial: status-details decoding is an oracle bit (base64 is modelled, protobuf parsing is not); '
          'decode_grpc_message is symbolic (C14); DATA events are complete messages (C01); the request side '
-         'never blocks; four cells of the statement are refuted by the faithful model (D2c, D2d, D2f, D2g: known findings)')
+         'never blocks; three cells of the statement are refuted by the faithful model (D2c, D2d, D2g: known findings)')
 TRUSTED = ['modelled, not verified: CPython int(str) grammar incl. the Unicode 15 Nd/whitespace tables '
            '(Model/PyInt.v; compared with int() on every code point in the thorough tier), dict(headers), '
            'str.partition, hyper-h2 (first HEADERS / trailers / END_STREAM / RST on a closed stream ignored / '
